@@ -28,6 +28,11 @@ CHECKS = {
   note="Trusted: go/ssa; the resource table in engines/c16.go (acquire/release pairs and handle guards confirmed by reading); callbacks registered elsewhere are checked only where listed (onExpire).",
   tech="static analysis: path-sensitive finite-domain dataflow (property simulation) for must-release on all claiming paths + lock-hold (must-held) analysis for claim atomicity + call-graph reachability",
   ref="DESIGN.md §2 C16, §1.3 E5"),
+ "C07": dict(
+  text="Source-level memory safety and pass-unmodified for all 7 eBPF programs (bpf/*.c parsed by clang -fsyntax-only with shim headers; abstract interpretation of clang's AST, helpers inlined, constant loops unrolled): every load/store through a packet-derived pointer is covered by a dominating data_end comparison establishing offset+size <= data_end (linear forms with opaque symbols, e.g. 14+vlan+4*ihl+8), stack buffers and map values stay inside their object, looked-up map values are NULL-tested before use; every return is a defined verdict constant, loops have constant trip counts, no packet access after bpf_xdp_adjust_tail; a pass verdict is returned only with the frame unmodified, per-program write policy (dhcp: no store on any XDP_PASS path; antispoof/qos/hairpin: no frame store at all; nat44: stores only after the subscriber_nat / nat_sessions lookup succeeded). Not decided: helper internals, alignment, verifier limits, semantics of what is written.",
+  note="Trusted: clang 14 parser/constant evaluator for the AST and record layouts; shim stand-ins for libbpf headers (/verif/tools/cshim); linux UAPI headers of the sandbox.",
+  tech="static analysis: abstract interpretation over clang's JSON AST (linear-form packet-bounds domain, Fourier-Motzkin entailment), may-write set per return",
+  ref="DESIGN.md §2 C07, §1.3 E2"),
  "C08": dict(
   text="Structural clauses of accounting reliability decided on the SSA of the accounting manager and RADIUS client: persist-before-stop ordering; every failed SendAccounting on every path reaches the retry queue with the same request (path-sensitive finite-domain dataflow); after a failed send nothing persisted is removed before the pending queue is written to disk (first-on-all-paths rule); queued requests are never rewritten; the recovery routine always reaches the pending reload; the retry processor drops a record only on success or exhausted budget; Start only after registration with duplicate ids refused; low-word/gigaword split and attribute-to-field table; like-named field provenance of every AcctRequest literal. These are necessary conditions; crash-point enumeration, retry timing and eventual delivery are not decided.",
   note="Trusted: go/ssa; os.WriteFile durability; the attribute/field table in engines/c08.go. Two durability findings in the recovery routine are known findings (repair blocked by an existing test).",
